@@ -27,7 +27,7 @@ STUBS = [
     "unicodedata.normalize('NFKD', s) -> identity (ASCII input only)",
 ]
 ASSUMPTIONS = ["POSIX path semantics (os.sep == '/', no altsep)", "secure_filename input is ASCII"]
-OUTSIDE = ["what send_from_directory / SharedDataMiddleware do after a file was found (send_file, openers, package loader)", "Windows separators", "non-ASCII filenames (unicodedata, C)", "longer components"]
+OUTSIDE = ["what send_from_directory / SharedDataMiddleware do after a file was found (send_file, openers)", "Windows separators", "non-ASCII filenames (unicodedata, C)", "longer components"]
 
 
 def _py_normpath_node():
@@ -135,6 +135,38 @@ def body_fs_access(I, X, via="shared_data", n=3, prefix="/"):
     saved = os.path.isfile
     os.path.isfile = rec
     try:
+        if via.startswith("package"):
+            # a package export: the resource reader of a stand-in package records what it is asked
+            import importlib.machinery
+            import sys
+            import types
+
+            from werkzeug.middleware.shared_data import SharedDataMiddleware
+
+            class Reader:
+                def open_resource(self, path):
+                    seen.append(("pkg", path))
+                    raise FileNotFoundError(path)
+
+            class Loader:
+                def get_resource_reader(self, name):
+                    return Reader()
+
+            mod = types.ModuleType("verif_fake_pkg")
+            mod.__spec__ = importlib.machinery.ModuleSpec("verif_fake_pkg", Loader(), origin="/srv/pkg/__init__.py")
+            sys.modules["verif_fake_pkg"] = mod
+            try:
+                pkg_path = "" if via == "package-empty" else "static"
+                mw = SharedDataMiddleware(lambda e, s: [b"app"], {"/static": ("verif_fake_pkg", pkg_path)})
+                environ = {"REQUEST_METHOD": "GET", "PATH_INFO": pconcat("/static", prefix, tail), "wsgi.url_scheme": "http", "SERVER_NAME": "s", "SERVER_PORT": "80"}
+                I.call(mw.__call__, (environ, lambda *a, **k: None))
+            finally:
+                sys.modules.pop("verif_fake_pkg", None)
+            ok = True
+            base = "." if via == "package-empty" else "static"
+            for kind, p in seen:
+                ok = pand(ok, inside(base, norm(I, X, p)))
+            return ok, {"asked": [p for k, p in seen]}
         if via == "shared_data":
             from werkzeug.middleware.shared_data import SharedDataMiddleware
 
@@ -188,7 +220,7 @@ def obligations(tier, seed):
                         "params": {"base": base, "lens": list(lens)},
                         "opts": {"budget_s": 900, "ctx": {"max_cp": 0xFF}},
                         "witness": lens == (3,) and base == "/r"})
-    for via in ("shared_data", "send_from_directory"):
+    for via in ("shared_data", "send_from_directory", "package", "package-empty"):
         for prefix in ("/", "//", "/a/"):
             for n in (range(0, 5) if quick else range(0, 7)):
                 out.append({"name": f"fs_access[{via},prefix={prefix!r},n={n}]", "body": "body_fs_access", "params": {"via": via, "n": n, "prefix": prefix},
